@@ -44,6 +44,7 @@ pub fn sig_len(fam: FamId, units: usize, seq: u64, pairs: &Pairs) -> usize {
     match fam {
         FamId::Var | FamId::Wide => 64 + keys::var_pad(&record::content_from_fields(seq, &to_vec(pairs)), units).len(),
         FamId::Tiny => 6,
+        FamId::Nano => 1,
         FamId::Mid => keys::mid_len(&record::content_from_fields(seq, &to_vec(pairs))),
         _ => 64,
     }
@@ -250,7 +251,7 @@ fn finish(cx: &Ctx, mut pairs: Pairs, new_seq: Option<u64>, pre_seq: u64, mut c:
     LAST_SIZE.with(|c| c.set(size));
     if size > 300 {
         c.err(EK::Size);
-    } else if (cx.fam == FamId::Var && size + 6 > 300) || (cx.fam == FamId::Mid && size + 12 > 300) || cx.fam == FamId::Wide {
+    } else if (cx.fam == FamId::Var && size + 6 > 300) || (cx.fam == FamId::Mid && size + 12 > 300) || (cx.fam == FamId::Nano && size + 1 > 300) || cx.fam == FamId::Wide {
         // variable-length signatures: exact refusal is only claimed for 64-byte signatures (C09);
         // a size check made before re-signing may see a longer previous signature
         c.open_with(EK::Size);
